@@ -11,7 +11,9 @@ propagation through futures).
 
 (workload) the per-pair weighting is compared with refmodel.gammacat_model on
 every alignment the runs produce (best / soft / fast, chance alignments and a
-seeded random partition), for every category present and one absent category.
+seeded random partition, and that partition again after it was edited through
+the public ``UnitaryAlignment.n_tuple`` setter), for every category present and
+one absent category.
 This part is input-driven, not schedule-driven.
 """
 import copy
@@ -35,7 +37,7 @@ TIERS = {
 RULE = ("case = seeded gamma scenario with a combined dissimilarity (every categorical component, alpha incl. 0, delta_empty != 1) or "
         "(1 in 8) a positional one (TypeError clause); gamma computed canonically, then gamma_cat and gamma_k(c) for every category of "
         "the continuum + one absent category evaluated under k seeded schedules and compared with the aggregation of sequentially "
-        "computed categorical disorders; every alignment's categorical disorder compared with the reference model. "
+        "computed categorical disorders; every alignment's categorical disorder compared with the reference model, the random partition also after edits through the n_tuple setter. "
         "distinct_nontrivial = distinct (scenario, schedule digest) pairs with >= 1 cross-thread switch inside a gamma-k job")
 ASSUMPTIONS = [
     "categories whose mean chance categorical disorder is 0 are skipped for gamma-k (value undefined by the statement)",
@@ -139,6 +141,39 @@ def run(case):
             seq[c] = vals[:len(g.chance_alignments) + 1]
         if violations:
             break
+    # ---- history: the SAME alignment object edited through its public interface after it was queried ------------
+    # (UnitaryAlignment.n_tuple setter + the unitary_alignments list: one real unit of a unitary alignment with >= 2
+    # real units is moved into a unitary alignment of its own - still a partition - then every category is asked again)
+    if not violations and alignments[-1][0] == "random_partition":
+        al = alignments[-1][1]
+        ech = Choices(case["partition_seed"]).sub("edit")
+        cand = [ua for ua in al.unitary_alignments if sum(1 for _, u in ua.n_tuple if u is not None) >= 2]
+        for step in range(2):
+            if not cand:
+                break
+            ua = ech.choice(cand)
+            tup = list(ua.n_tuple)
+            real = [i for i, (_, u) in enumerate(tup) if u is not None]
+            i = ech.choice(real)
+            a, u = tup[i]
+            tup[i] = (a, None)
+            ua.n_tuple = tup
+            al.unitary_alignments.append(pa.UnitaryAlignment([(b, u if j == i else None) for j, (b, _) in enumerate(tup)]))
+            cand = [x for x in al.unitary_alignments if sum(1 for _, v in x.n_tuple if v is not None) >= 2]
+            stats["alignment_edits"] = stats.get("alignment_edits", 0) + 1
+            for c in [None] + cats:
+                lib = float(al.gamma_k_disorder(dissim, c))
+                ref = gm.categorical_disorder(al, dissim, c)
+                stats["disorders_modelled"] = stats.get("disorders_modelled", 0) + 1
+                if not ao.close(lib, ref, rel=2e-5, abs_=2e-6):
+                    violations.append({"kind": "categorical_disorder",
+                                       "msg": f"after edit #{step + 1} of the random partition through UnitaryAlignment.n_tuple (unit of {a} "
+                                              f"moved to a unitary alignment of its own): gamma_k_disorder(category={c!r}) = {lib!r}, "
+                                              f"reference model gives {ref!r}",
+                                       "sig": {"category": "cat" if c is None else "k", "edited": True}})
+                    break
+            if violations:
+                break
     # ---- pooled evaluation under schedules (simulation part) ---------------------------
     if not violations:
         perfect = gm.perfectly_categorised(g.best_alignment)
